@@ -212,6 +212,9 @@ def r_once(db, rep):
     removers = [m for m in db.methods_of("WorkerQueue") if m.body and any(
         x.get("ext") and callee_name(x) in ("pop_front", "pop_back", "erase") and x.get("obj") is not None and
         C.canon(m, access_path(m, x["obj"])) == qloc for x in m.calls())]
+    if not removers:
+        # another container (a hand-written ring buffer, ...): the method called pop / try_pop
+        removers = [m for m in db.methods_of("WorkerQueue") if m.body and m.name in ("pop", "try_pop", "take")]
     if len(removers) != 1:
         raise AnalysisBroken("WorkerQueue: expected exactly one method that removes a task from q, found %d" % len(removers))
     pop = removers[0]
